@@ -34,7 +34,7 @@ def showLevel (l : Syn.Level) : String :=
   toString l.arity ++ " " ++ toString l.width ++ " " ++ showAttr l.attr ++ " " ++ showIdx l.idx.arr ++ " [" ++
   " ".intercalate (l.attached.map (fun a => toString a.mem ++ "/" ++ toString a.msc)) ++ "]"
 
-def crashKind (e : Err) : String :=
+def crashKind (e : Syn.Err) : String :=
   match e with
   | .einval => "EINVAL"
   | .abort => "crash assert"
